@@ -688,7 +688,6 @@ func isRepoNamed(t types.Type) bool {
 	return ok && n.Obj().Pkg() != nil && strings.HasPrefix(n.Obj().Pkg().Path(), modPath)
 }
 
-
 // marshalSources: the local variables a value handed to the codec is (a load of / the address of).
 func marshalSources(v ssa.Value, d int) []ssa.Value {
 	if v == nil || d > 8 {
